@@ -82,6 +82,67 @@ def search_exprs(ck, exe, work):
                         return
 
 
+BR = ["beq", "bne", "blt", "ublt", "ble", "uble", "bgt", "ubgt", "bge", "ubge"]
+BRVALS = [0, 1, 5, 0x7fffffff, 0x80000000, 0xffffffff, 0x100000000, 0x100000005, 0x7fffffffffffffff,
+          0x8000000000000000, 0xffffffffffffffff]
+
+
+def branch_shapes(ck, exe, work):
+    """every integer compare-and-branch in the operand forms the combiner and the simplifier rewrite with their
+    tables (operand swap to fold a load: commutative_insn_code; branch over jump: MIR_reverse_branch_code;
+    compare + bt/bf: get_combined_br_code), over a boundary grid incl. equal operands and dirty upper halves"""
+    funcs, names = [], []
+    tail = "  mov r, 0\n  ret r\n{t}:\n  mov r, 1\n  ret r\n"
+    n = 0
+    for b in BR:
+        for sfx in ("", "s"):
+            op = b + sfx
+            cmpop = {"beq": "eq", "bne": "ne", "blt": "lt", "ublt": "ult", "ble": "le", "uble": "ule", "bgt": "gt",
+                     "ubgt": "ugt", "bge": "ge", "ubge": "uge"}[b] + sfx
+            shapes = {
+                "rr": f"  {op} {{t}}, a, b\n" + tail,
+                "ld1": f"  alloca p, 32\n  mov i64:8(p), a\n  mov x, i64:8(p)\n  {op} {{t}}, x, b\n" + tail,
+                "ld2": f"  alloca p, 32\n  mov i64:8(p), b\n  mov x, i64:8(p)\n  {op} {{t}}, a, x\n" + tail,
+                "m1": f"  alloca p, 32\n  mov i64:8(p), a\n  {op} {{t}}, i64:8(p), b\n" + tail,
+                "m2": f"  alloca p, 32\n  mov i64:8(p), b\n  {op} {{t}}, a, i64:8(p)\n" + tail,
+                "overjmp": f"  {op} {{t}}, a, b\n  jmp {{f}}\n{{t}}:\n  mov r, 1\n  ret r\n{{f}}:\n  mov r, 0\n  ret r\n",
+                "cmp-bt": f"  {cmpop} x, a, b\n  bt {{t}}, x\n" + tail,
+                "cmp-bf": f"  {cmpop} x, a, b\n  bf {{t}}, x\n" + tail,
+                "ld1-cmp-bts": f"  alloca p, 32\n  mov i64:8(p), a\n  mov y, i64:8(p)\n  {cmpop} x, y, b\n  bts {{t}}, x\n" + tail,
+            }
+            for sh, body in shapes.items():
+                n += 1
+                fn = f"s{n}_{op}_{sh.replace('-', '_')}"
+                names.append(fn)
+                funcs.append(f"{fn}: func i64, i64:a, i64:b\n  local i64:r, i64:p, i64:x, i64:y\n" + body.format(t=f"T{n}", f=f"F{n}") + "  endfunc\n")
+    text = "m: module\nexport " + ", ".join(names) + "\n" + "".join(funcs) + "endmodule\n"
+    plan = "ivals " + " ".join(f"{v:x}" for v in BRVALS) + "\n" + "".join(f"grid {fn} ii_i any\n" for fn in names)
+    rc, lines, err = progtie.run_engine(exe, ENGINES, text, plan, work, "brshapes", timeout=300, quiet=False)
+    rl = [l for l in lines if l.startswith("R ")]
+    bad = [l for l in rl if " | =" not in l]
+    errs = [l for l in lines if l.startswith("E ")]
+    want = len(names) * len(BRVALS) ** 2
+    if rc != 0 or errs or len(rl) != want:
+        ck.broken_ties.append({"kind": "harness", "name": "branch-shapes", "rc": rc, "lines": len(rl), "expected": want,
+                               "errors": errs[:3], "stderr": err[-300:]})
+        return len(rl)
+    seen = set()
+    for l in bad:
+        fn = l.split()[1]
+        if fn in seen:
+            continue
+        seen.add(fn)
+        if len(seen) > 4:
+            break
+        a, b2 = l.split(" |")[0].split()[2:4]
+        i = names.index(fn)
+        one = "m: module\nexport " + fn + "\n" + funcs[i] + "endmodule\n"
+        ck.violation({"stage": "branch-shapes", "function": fn, "mir": one, "plan": f"call {fn} ii_i {a} {b2}\n", "engines": ENGINES,
+                      "line": l, "how_to_rerun": "./check C01 --replay <this file>"},
+                     what=f"compare-and-branch shape {fn} with a={a} b={b2}: engines disagree: {l.split(' |')[1][:120]}")
+    return len(rl)
+
+
 def run_corpus(ck, exe, work):
     n = 0
     for mir in sorted(glob.glob(os.path.join(VERIF, "corpus", "C01", "*.mir"))):
@@ -134,6 +195,7 @@ def main():
     if not gate_ok:
         search_exprs(ck, exe, work)
     ncorp = run_corpus(ck, exe, work)
+    ncorp += branch_shapes(ck, exe, work)
     nprogs = 6000 if quick else 120000
     opts = dict(jmpi=True)
     fails, nev, stats, pwork = progtie.run_programs(ck, exe, ENGINES, nprogs, opts=opts, per_batch=25 if quick else 60)
